@@ -55,6 +55,31 @@ def bounded(check, tier):
     s.done()
 
 
+def characters(check, tier):
+    """positions next to characters that take no column or two (combining marks, joiners, NUL, double-width): offsets count characters"""
+    import itertools
+    maxlen = 4 if tier == "thorough" else 3
+    alph = ["a", "\u0301", "\uff25", "\x00", "\u200d"]
+    s = Suite(check, "C09.characters", f"every text of length <= {maxlen} over {{narrow, combining accent, double-width, NUL, zero-width joiner}} as one run and "
+              "cut into two runs at every position x new values 'X', '', a combining accent, a formatted run x every 0<=start<=end<=len and end "
+              "omitted: the sidecar contract of splice / append at run time (offsets count characters, whatever their width)",
+              bound=f"length<={maxlen}")
+    news = ["X", "", "\u0301", FmtStr(Chunk("\uff25\u0301", {"bg": 44}))]
+    for n in range(1, maxlen + 1):
+        for p in itertools.product(alph, repeat=n):
+            t = "".join(p)
+            if not any(ord(c) in (0x301, 0xff25, 0, 0x200d) for c in t):
+                continue
+            for cut in range(0, n):
+                f = FmtStr(Chunk(t, {"fg": 31})) if cut == 0 else FmtStr(Chunk(t[:cut], {"fg": 31}), Chunk(t[cut:], {"bold": True}))
+                for ni, new in enumerate(news):
+                    for start in range(0, n + 1):
+                        for end in [None] + list(range(start, n + 1)):
+                            s.contract_case(F.splice, dict(self=f, new_str=new, start=start, end=end), key=(t, cut, ni, start, end))
+                    s.contract_case(F.append, dict(self=f, string=new), key=(t, cut, ni, "append"))
+    s.done()
+
+
 def derived(check, tier, seed):
     from bounded.derived import derived_values
     n = 5000 if tier == "thorough" else 600
@@ -91,4 +116,5 @@ def run(check, tier, seed):
     for c in CONTRACTS:
         verify(c, tier, check)
     bounded(check, tier)
+    characters(check, tier)
     derived(check, tier, seed)
